@@ -134,8 +134,10 @@ func (dm *DMap) deleteKey(key string) error {
 	// Check the HKey before trying to delete it.
 	if !f.storage.Check(hkey) {
 		// This member may have taken over the partition recently. Then the key may
-		// still live on a previous owner, where Get and Scan find it.
-		if len(dm.s.primary.PartitionOwnersByHKey(hkey)) < 2 {
+		// still live on a previous owner, where Get and Scan find it. After the loss
+		// of the previous owner, only the backups have the key and Get returns it from there.
+		if len(dm.s.primary.PartitionOwnersByHKey(hkey)) < 2 &&
+			len(dm.s.backup.PartitionOwnersByHKey(hkey)) == 0 {
 			// DeleteMisses is the number of deletions reqs for missing keys
 			DeleteMisses.Increase(1)
 			return nil
